@@ -1,5 +1,5 @@
 SPECIFICATION Spec
-CONSTANTS MaxLen = 5 Wide = FALSE
+CONSTANTS MaxLen = 4 Wide = FALSE
   Kinds <- AllKinds
 INVARIANT Aggregate
 INVARIANT Yielded
